@@ -146,7 +146,7 @@ def run(ctx):
     for b in (r.TRY_GET, r.TIMEOUT_GET, r.TRY_ADD, r.ADD):
         an = prog.an(b)
         ctx.saw(b)
-        cl = [c_ for bb, c_, k in prog.callgraph().get(b.path, []) if k == 'closure']
+        cl = [c_ for bb, c_, k in prog.callgraph().get(b.path, []) if k in ('closure', 'fnref') and c_ in prog.bodies and c_.startswith(('deadpool::unmanaged', '<deadpool::unmanaged'))]
         for body in [b] + [prog.bodies[x] for x in cl]:
             ban = prog.an(body)
             for x in body.blocks:
@@ -175,7 +175,7 @@ def run(ctx):
     # a Timeout built anywhere else (a counter-based fast path, say) answers Timeout on a closed pool, where Closed is owed
     n_to = 0
     for b in (r.TRY_GET, r.TIMEOUT_GET, r.TRY_ADD, r.ADD):
-        cl = [c_ for bb, c_, k in prog.callgraph().get(b.path, []) if k == 'closure']
+        cl = [c_ for bb, c_, k in prog.callgraph().get(b.path, []) if k in ('closure', 'fnref') and c_ in prog.bodies and c_.startswith(('deadpool::unmanaged', '<deadpool::unmanaged'))]
         for body in [b] + [prog.bodies[x] for x in cl if x in prog.bodies]:
             ban = prog.an(body)
             nop = set()
